@@ -1076,6 +1076,243 @@ def check_roundtrip_types(out, rng, spec):
         out.fail("roundtrip-propagator", "as_orbit does not attach the propagator", inp)
 
 
+# ---------------------------------------------------------------- oracle: failing FORM changes, on every leg of every route
+
+class nobody_frame:
+    """a frame (orientation EME2000) centred on a point that carries no attracting body (a barycentre, a probe): every conversion leg
+    that needs mu raises AttributeError, the geometric ones (spherical, cylindrical <-> cartesian) work"""
+
+    def __enter__(self):
+        import numpy as np
+        from beyond.frames import frames, center, orient
+        self.prev = frames.dynamic.get("NoBody")
+        c = center.Center("NoBody")
+        c.add_link(center.Earth, orient.EME2000, np.array([3e8, 1e8, 0.0, 0.0, 0.0, 0.0]))
+        return frames.Frame("NoBody", orient.EME2000, c, exists_warning=False)
+
+    def __exit__(self, *a):
+        from beyond.frames import frames, center
+        frames.dynamic.pop("NoBody", None)
+        if self.prev is not None:
+            frames.dynamic["NoBody"] = self.prev
+        if hasattr(center.Center, "NoBody_to_Earth"):
+            delattr(center.Center, "NoBody_to_Earth")
+        return False
+
+
+def route_legs(src, dst):
+    """names of the conversion functions `Form.__call__` walks from form src to form dst"""
+    from beyond.orbits.forms import get_form
+    if src == dst:
+        return []
+    return [f"_{a.name.lower()}_to_{b.name.lower()}" for a, b in get_form(src).steps(get_form(dst).name)]
+
+
+class failing_leg:
+    """fault injection: one leg of the conversion graph raises (what a body without mu, a degenerate state under np.errstate(raise), a
+    future range check ... do on that leg)"""
+
+    def __init__(self, leg):
+        self.leg = leg
+
+    def __enter__(self):
+        from unittest import mock
+        from beyond.orbits.forms import Form
+        self.p = mock.patch.object(Form, self.leg, side_effect=ValueError(f"injected failure in {self.leg}"))
+        self.p.start()
+
+    def __exit__(self, *a):
+        self.p.stop()
+        return False
+
+
+SPECIAL_STATES = {
+    "hyperbolic": [7.0e6, 0.0, 0.0, 0.0, 12.0e3, 1.0e3],
+    "circular-equatorial": [7.0e6, 0.0, 0.0, 0.0, 7546.0533, 0.0],
+    "rectilinear": [7.0e6, 0.0, 0.0, 3.0e3, 0.0, 0.0],
+}
+
+
+def _judge_failed_form(out, sv, thunk, ctx, fam, what, inp):
+    """run one form assignment that is expected to raise; when it does, the object must be bit-identical to what it was"""
+    before = snap_full(sv)
+    with ctx:
+        how, err = attempt(thunk)
+    if how == "ok":
+        return False
+    after = snap_full(sv)
+    if how == "hang":
+        out.fail(fam.replace("state", "hangs"), f"{what}: the assignment does not return", inp, observed=repr(err))
+    elif after != before:
+        out.fail(fam, f"{what}: raised {type(err).__name__} and left the object changed ({snap_diff(before, after)}): form {after[0][1]}, expected {before[0][1]}", inp,
+                 observed=str(after[0][:4])[:300], expected=str(before[0][:4])[:300])
+    return True
+
+
+def check_failed_form_change(out, rng, spec, thorough=False):
+    """O3 for the form setter: a form change that fails on ANY leg of its route — not only the first — leaves form, values and everything
+    else bit-identical. Ways to fail: a frame whose centre has no body (mu); hyperbolic / degenerate states with numpy told to raise;
+    fault injection on every leg of every route between the ten forms; also through copy(form=) (receiver) """
+    import contextlib
+    import numpy as np
+    from beyond.orbits import StateVector
+    # 1. no body
+    for src in ("spherical", "cylindrical", "cartesian"):
+        for dst in [f for f in FORMS if f not in ("spherical", "cylindrical", "cartesian")]:
+            with nobody_frame() as fr:
+                base = make_state(rng, dict(spec, form=src, frame="EME2000", cov=False))
+                base._data["frame"] = fr
+                out.count(key=("form-nobody", src, dst, spec["orbit"], spec.get("meta")), kind="failed-form-change", case="no-body")
+                raised = _judge_failed_form(out, base, lambda: setattr(base, "form", dst), contextlib.nullcontext(), "failed-change-state-form-nobody",
+                                            f"{src} state in a frame whose centre has no body set to '{dst}'", {"spec": spec, "case": "form-nobody", "src": src, "dst": dst})
+                if not raised:
+                    out.fail("no-error-form-nobody", f"{src} -> {dst} without a body did not raise", {"spec": spec, "case": "form-nobody", "src": src, "dst": dst})
+    # 2. special states, numpy raising
+    for label, cart in SPECIAL_STATES.items():
+        for src in ("cartesian", "spherical", "cylindrical", "keplerian"):
+            for dst in FORMS:
+                if dst == src:
+                    continue
+                d = make_state(rng, dict(spec, form="cartesian", frame="EME2000", cov=False))
+                sv = StateVector(cart, d.date, "cartesian", "EME2000", **{k: v for k, v in d._data.items() if k not in ("date", "form", "frame", "cov", "propagator")})
+                how, _ = attempt(lambda: setattr(sv, "form", src))
+                if how != "ok" or not np.all(np.isfinite(np.asarray(sv))):
+                    out.tally(f"special-state-not-representable={label}:{src}")
+                    continue
+                out.count(key=("form-errstate", label, src, dst), kind="failed-form-change", case="errstate")
+                raised = _judge_failed_form(out, sv, lambda: setattr(sv, "form", dst), np.errstate(all="raise"), "failed-change-state-form-errstate",
+                                            f"{label} state held in form {src} set to '{dst}' under np.errstate(all='raise')",
+                                            {"spec": spec, "case": "form-errstate", "state": label, "src": src, "dst": dst})
+                out.tally(f"errstate-{'raised' if raised else 'converted'}")
+    # 3. every leg of every route
+    pairs = [(a, b) for a in FORMS for b in FORMS if a != b]
+    if not thorough:
+        pairs = [pr for pr in pairs if len(route_legs(*pr)) >= 2]
+        pairs = rng.sample(pairs, 30)
+    for src, dst in pairs:
+        legs = route_legs(src, dst)
+        for k, leg in enumerate(legs):
+            for how_set in ("setter", "copy"):
+                sv = make_state(rng, dict(spec, form=src))
+                if not finite_state(sv):
+                    continue
+                out.count(key=("form-leg", src, dst, k, how_set), kind="failed-form-change", case=f"leg{k}-{how_set}")
+                thunk = (lambda: setattr(sv, "form", dst)) if how_set == "setter" else (lambda: sv.copy(form=dst))
+                raised = _judge_failed_form(out, sv, thunk, failing_leg(leg), f"failed-change-state-form-leg-{how_set}",
+                                            f"{src} -> {dst} ({how_set}) with leg {k} ({leg}) of {len(legs)} raising", {"spec": spec, "case": "form-leg", "src": src, "dst": dst, "leg": k, "how": how_set})
+                if not raised:
+                    out.fail("no-error-form-leg", f"{src} -> {dst}: the failing leg {leg} was not walked", {"spec": spec, "case": "form-leg", "src": src, "dst": dst, "leg": k})
+
+
+# ---------------------------------------------------------------- oracle: every public method that returns a state object
+
+TLE_TEXT = """ISS (ZARYA)
+1 25544U 98067A   18124.55610684  .00001524  00000-0  30197-4 0  9997
+2 25544  51.6421 236.2139 0003381  47.8509  47.6767 15.54198229111731"""
+
+
+def producers(rng, sv):
+    """(name, kind, thunk -> list of (receiver-or-argument, returned object)) for the public methods that RETURN a state object"""
+    from beyond.dates import timedelta
+    from beyond.orbits import Orbit
+    from beyond.frames.frames import get_frame
+    other = get_frame("ITRF" if sv._data["frame"].name != "ITRF" else "EME2000")
+    ps = [("Frame.transform", "transform", lambda: [(sv, sv.frame.transform(sv, other))]),
+          ("Form.__call__", "form-call", lambda: [(sv, r) for r in [sv.form(sv, "cartesian" if sv.form.name != "cartesian" else "keplerian")] if hasattr(r, "_data")])]
+    if isinstance(sv, Orbit):
+        step = timedelta(seconds=120)
+
+        def ephem_all():
+            eph = sv.ephem(start=sv.date, stop=step * 10, step=step)
+            stored = list(eph._orbits)
+            res = [eph.interpolate(sv.date + step * 1.5), eph.propagate(sv.date + step * 2.5)]
+            res += list(eph.iter(step=step * 1.5))[:2] + list(eph.iter())[:2] + list(eph.ephem()._orbits)[:2] + list(eph.copy()._orbits)[:2]
+            return [(x, r) for r in res for x in stored + [sv]]
+        ps += [("Orbit.propagate", "propagate", lambda: [(sv, sv.propagate(sv.date + step))]),
+               ("Orbit.iter", "iter", lambda: [(sv, r) for r in list(sv.iter(start=sv.date, stop=step * 2, step=step))]),
+               ("Orbit.ephem", "ephem", lambda: [(sv, r) for r in sv.ephem(start=sv.date, stop=step * 2, step=step)._orbits]),
+               ("Ephem.interpolate/propagate/iter/ephem/copy", "ephem-out", ephem_all)]
+    return ps
+
+
+def check_returned_objects(out, rng, spec):
+    """every public method that returns a state object hands out one that has no mutable cell in common with its receiver / argument
+    (identity partition, maneuver objects apart) and that no in-place change of one side shows in the other"""
+    probe = make_state(rng, spec)
+    for pi in range(len(producers(rng, probe))):
+        sv = make_state(rng, spec)
+        name, kind, thunk = producers(rng, sv)[pi]
+        before = snap_full(sv)
+        how, pairs = attempt(thunk, seconds=5.0)
+        inp = {"spec": spec, "producer": name}
+        out.count(key=("returned", name, spec["form"], spec["frame"], spec["orbit"], spec["cov"], spec["mans"], spec.get("meta")), kind="returned-object", op=kind)
+        if how != "ok":
+            out.fail(f"convert-raises-{kind}", f"{name} {'does not return' if how == 'hang' else 'raised'} {type(pairs).__name__}: {pairs}", inp, observed=repr(pairs))
+            continue
+        if snap_full(sv) != before:
+            out.fail(f"receiver-changed-{kind}", f"{name} changed its receiver / argument ({snap_diff(before, snap_full(sv))})", inp)
+            continue
+        if not pairs:
+            out.tally(f"returned-no-state-object={kind}")
+            continue
+        bad = False
+        for src, res in pairs:
+            if res is src:
+                out.fail(f"shared-object-after-{kind}", f"{name} returned its receiver / a stored object itself", inp)
+                bad = True
+                break
+            sh = [x for x in shared_cells(src, res) if x[0] != "man-object"]
+            if sh:
+                report_shared(out, sh, kind, name, inp, src, res)
+                bad = True
+                break
+        if bad:
+            continue
+        # behaviour: each in-place change of the first returned object / of the receiver, from a fresh production
+        n_muts = len(mutations(rng, pairs[0][1]))
+        for mi in range(n_muts):
+            for direction in ("result", "receiver"):
+                sv = make_state(rng, spec)
+                name, kind, thunk = producers(rng, sv)[pi]
+                how, pairs = attempt(thunk, seconds=5.0)
+                if how != "ok" or not pairs:
+                    break
+                src, res = pairs[0]
+                target, other = (res, src) if direction == "result" else (src, res)
+                ms = mutations(rng, target)
+                if mi >= len(ms):
+                    continue
+                field, mut = ms[mi]
+                if field == "man-object":
+                    continue
+                ref = snap_full(other)
+                how, err = attempt(mut)
+                out.count(key=("returned", name, mi, direction, spec["form"], spec["frame"], spec["cov"], spec["mans"], spec.get("meta")), kind="returned-object-separation", op=kind, field=field)
+                if snap_full(other) != ref:
+                    out.fail(f"shared-{field}-after-{kind}", f"after {name}, changing {field} of the {direction} shows in the other object ({snap_diff(ref, snap_full(other))})",
+                             dict(inp, mutation_index=mi, direction=direction), observed=str(snap_full(other))[:300], expected=str(ref)[:300])
+
+
+def check_tle_orbit(out, rng):
+    """Tle.orbit() builds a new Orbit on every call: two of them share nothing but the (value) Tle object they both refer to"""
+    import numpy as np
+    from beyond.io.tle import Tle
+    tle = Tle(TLE_TEXT)
+    a, b = tle.orbit(), tle.orbit()
+    out.count(key=("tle-orbit",), kind="returned-object", op="tle-orbit")
+    ref_list = list(tle.to_list())
+    sh = [x for x in shared_cells(a, b) if ".tle" not in x[1] and x[0] != "propagator"]
+    if a is b or sh:
+        out.fail("shared-object-after-tle-orbit", f"two calls of Tle.orbit() share {sh[0][1] if sh else 'the object itself'}", {"producer": "Tle.orbit"})
+        return
+    ref = snap_full(b)
+    a[0] = 1.0
+    a.form = "cartesian"
+    a.name = "other"
+    if snap_full(b) != ref or list(tle.to_list()) != ref_list:
+        out.fail("shared-coord-after-tle-orbit", "changing one Orbit returned by Tle.orbit() shows in another one / in the Tle", {"producer": "Tle.orbit"})
+
+
 # ---------------------------------------------------------------- oracle: the standard library's copy protocol
 
 def check_deepcopy(out, rng, spec):
@@ -1199,6 +1436,12 @@ def oracle(ctx, widened):
         check_failed_change(out, rng, rand_spec(rng, form=form, cov=True))
     for _ in range(300 if big else 20):
         check_failed_change(out, rng, rand_spec(rng))
+    check_failed_form_change(out, rng, rand_spec(rng, frame="EME2000", orbit=False, cov=True, meta=1, mans=1), thorough=big)
+    for orbit in (True, False):
+        check_returned_objects(out, rng, rand_spec(rng, orbit=orbit, frame="EME2000", cov=True, covframe=None, mans=0, meta=1, lazy=True))
+    for _ in range(6 if big else 0):
+        check_returned_objects(out, rng, rand_spec(rng, mans=0))
+    check_tle_orbit(out, rng)
     for k in range(60 if big else 6):
         spec = rand_spec(rng, covframe=[None, "TNW", "QSW", None][k % 4])
         check_cov_constructors(out, rng, spec)
@@ -1222,7 +1465,11 @@ def replay(f):
     i = f["input"]
     rng = random.Random(0)
     fam = f["family"]
-    if fam.startswith("seq-") or fam == "heap-sequence":
+    if i.get("case", "").startswith("form-"):
+        check_failed_form_change(out, rng, i["spec"], thorough=True)
+    elif "producer" in i:
+        check_tle_orbit(out, rng) if i["producer"] == "Tle.orbit" else check_returned_objects(out, rng, i["spec"])
+    elif fam.startswith("seq-") or fam == "heap-sequence":
         check_sequence(out, i["ops"], i["kep"])
     elif fam.endswith("deepcopy") or fam == "deepcopy-values":
         check_deepcopy(out, rng, i["spec"])
